@@ -282,8 +282,9 @@ class RunNormalizer(CallbackBase):
             index_start = sum(_next_index.values())
             _next_index["index"] = frame + 1
             index_stop = sum(_next_index.values())
-            if index_stop < index_start:
-                # The datum is likely referencing a next Resource, but the indexing must continue
+            if index_stop <= index_start:
+                # The datum is likely referencing a next Resource (its frame numbering started over; with one
+                # frame per Resource it is 0 every time), but the indexing must continue
                 _next_index["carry"] = index_start
                 index_stop = sum(_next_index.values())
         else:
